@@ -9,6 +9,9 @@
 package tables
 
 import (
+	"runtime"
+	"sync"
+	"sync/atomic"
 	"bytes"
 	"encoding/hex"
 	"fmt"
@@ -1794,5 +1797,181 @@ func (g *Gen) ManyMACsHistory(n int, discipline bool) []string {
 	}
 	now += 3661
 	ops = append(ops, fmt.Sprintf("P,%d", now), "S", fmt.Sprintf("P,%d", now+3661), "S")
+	return ops
+}
+
+// ---------------------------------------------------------------- concurrent executions (kind t5q)
+
+// ConcurrentRun executes a random workload under the supported concurrency pattern and returns, at quiescence (all
+// goroutines joined), the verdict of the invariant oracle and of PrintTable:
+//   - the packet loop goroutine: Parse, Notify with that Parse's frame, and what handlers call from the loop
+//     (DHCPv4Update, SetDHCPv4IPOffer, Update*Name), one operation at a time;
+//   - the purge goroutine: purge at now, now+Offline+1 s, now+Purge+1 s (wall-clock LastSeen values; only Inv matters);
+//   - a control goroutine: Capture, Release and the read-only views (FindIP, GetHosts, IPAddrs, FindByMAC, PrintTable);
+//   - a drain goroutine reading the notification channel.
+// No linearisation is attempted: the observation is Inv at the quiescent point, which holds after every sequential
+// history (C05_history) and must survive the interleaving.
+func ConcurrentRun(cfg Cfg, seed uint64, n int) (verdict string, ops int) {
+	sm := NewSim(cfg, 0)
+	defer sm.Close()
+	s := sm.S
+	rng := lib.NewRand(seed)
+	g := &Gen{U: StdUniverse(), Rng: rng.Fork()}
+	u := g.U
+	loopOps := g.ConflictHistory(n)
+	if rng.Chance(50) {
+		loopOps = g.History(n)
+	}
+	type ctl struct {
+		kind int
+		mac  net.HardwareAddr
+		ip   netip.Addr
+	}
+	var ctls []ctl
+	crng := rng.Fork()
+	for i := 0; i < n; i++ {
+		ctls = append(ctls, ctl{crng.Intn(7), u.MACs[crng.Intn(len(u.MACs))], u.IP4s[crng.Intn(len(u.IP4s))]})
+	}
+	prng := rng.Fork()
+	var purges []time.Duration
+	for i := 0; i < n/2+1; i++ {
+		purges = append(purges, time.Duration(prng.Pick(0, 0, int(cfg.OfflineSec)+1, int(cfg.OfflineSec)+1, int(cfg.PurgeSec)+1))*time.Second)
+	}
+	var wg sync.WaitGroup
+	var panicked atomic.Value
+	guard := func(f func()) {
+		defer wg.Done()
+		defer func() {
+			if e := recover(); e != nil {
+				panicked.Store(fmt.Sprint(e))
+			}
+		}()
+		f()
+	}
+	stopDrain := make(chan struct{})
+	drained := make(chan struct{})
+	go func() {
+		defer close(drained)
+		for {
+			select {
+			case <-s.C:
+			case <-stopDrain:
+				return
+			}
+		}
+	}()
+	wg.Add(3)
+	go guard(func() { // the packet loop
+		var buf [2048]byte
+		var last packet.Frame
+		have := false
+		for _, tok := range loopOps {
+			f := strings.Split(tok, ",")
+			switch f[0] {
+			case "R":
+				v, _ := strconv.Atoi(f[7])
+				fr := BuildFrame(ParseMac(f[1]), f[2], ParseIP(f[3]), ParseMac(f[4]), v)
+				k := copy(buf[:], fr)
+				last, _ = s.Parse(buf[:k])
+				have = true
+			case "N":
+				// Notify directly after its Parse only (a frame whose host was deleted in between is the caller's
+				// responsibility in the loop: the loop calls Notify at once)
+				if have {
+					s.Notify(last)
+					have = false
+				}
+			case "U":
+				s.DHCPv4Update(ParseMac(f[1]), ParseIP(f[2]), EntryOf(f[3], "dhcp4"))
+			case "O":
+				s.SetDHCPv4IPOffer(ParseMac(f[1]), ParseIP(f[2]), EntryOf(f[3], "dhcp4"))
+			case "M":
+				if h := s.FindIP(ParseIP(f[2])); h != nil {
+					h.UpdateMDNSName(EntryOf(f[3], "t"))
+				}
+			}
+			runtime.Gosched()
+		}
+	})
+	go guard(func() { // the purge goroutine
+		for _, d := range purges {
+			s.VerifPurge(time.Now().Add(d))
+			runtime.Gosched()
+		}
+	})
+	go guard(func() { // control API and views
+		for _, c := range ctls {
+			switch c.kind {
+			case 0:
+				s.Capture(c.mac)
+			case 1:
+				s.Release(c.mac)
+			case 2:
+				s.FindIP(c.ip)
+			case 3:
+				s.GetHosts()
+			case 4:
+				s.IPAddrs(c.mac)
+			case 5:
+				s.FindByMAC(c.mac)
+			case 6:
+				s.PrintTable()
+			}
+			runtime.Gosched()
+		}
+	})
+	wg.Wait()
+	close(stopDrain)
+	<-drained
+	if p := panicked.Load(); p != nil {
+		return "panic:" + p.(string), len(loopOps)
+	}
+	inv := sm.InvOracle()
+	return "inv=" + map[bool]string{true: "1", false: "0:" + inv}[inv == ""] + "|pt=" + sm.PrintTable(), len(loopOps)
+}
+
+// FullChannelHistory (kind t6n, no implicit drain, no purge): one client MAC learns n addresses (Parse;Notify each, some
+// through DHCPv4Update + DHCP-path Notify), so the channel holds n notifications and overflows above 128; new IPv4
+// addresses then supersede the previous one (makeOffline with the channel full: the offline notification is dropped
+// and no longer pending); Notify is called twice now and then; a drain; afterwards repeat traffic must be silent
+// (what was dropped is not reported later) and new transitions are reported again.
+func (g *Gen) FullChannelHistory(n int) []string {
+	u := g.U
+	m := u.MACs[2+g.Rng.Intn(3)]
+	now := int64(0)
+	var ops []string
+	n4 := 0
+	rx := func(cls string, ip netip.Addr) {
+		now++
+		ops = append(ops, RxTok(m, cls, ip, nil, 0, now), "N")
+		if g.Rng.Chance(20) {
+			ops = append(ops, "N")
+		}
+	}
+	rx("6", u.IP6s[0])
+	for k := 1; k < n; k++ {
+		switch r := g.Rng.Intn(10); {
+		case r < 2:
+			rx("4", scaleIP4(n4))
+			n4++
+		case r < 3:
+			now++
+			ops = append(ops, fmt.Sprintf("U,%s,%s,%s,%d", MacTok(m), IPTok(scaleIP4(n4)), g.name(), now))
+			now++
+			ops = append(ops, RxTok(m, "4", u.IP4s[6], nil, 3, now), "N")
+			n4++
+		default:
+			rx("6", scaleIP6(k))
+		}
+	}
+	for i := 0; i < 4; i++ { // with the channel (nearly) full: supersession
+		rx("4", scaleIP4(n4))
+		n4++
+	}
+	ops = append(ops, "D")
+	rx("4", scaleIP4(n4-1)) // repeat traffic: silent
+	rx("4", scaleIP4(n4-2)) // return of a superseded address: its offline notification was lost, now online again
+	rx("6", u.IP6s[0])
+	ops = append(ops, "D")
 	return ops
 }
